@@ -83,7 +83,7 @@ def check_case(p, ctx):
             vanished = j
     if vanished is None:
         S = series.realise_series([S.T[k] for k in range(n)], nint, times, p["lab_seeds"], relabel=p["relabel"])
-    fsys = call(fs.ForSys, S.frames, cm=False)
+    fsys = call(fs.ForSys, S.frames, cm=False) if p["lab_seeds"][0] % 2 else call(fs.ForSys, S.frames)   # default: cm=False
     mesh = core.mesh_of(fsys)
     if any(mesh.mapping.get(k) is None for k in range(n - 1)):
         ctx.skip("frame pair declared too different (bounding box change after the jump)")
